@@ -217,3 +217,17 @@ def rewrite(src, variant):
         if l.startswith("#pragma") and variant == "intc" and consts:
             out.append("intcblock " + " ".join(map(str, consts)))
     return "\n".join(out) + "\n"
+
+
+def loop_call_programs():
+    """skeletons with 3 main and 3 subroutine blocks in which the main program loops back over a call and the subroutine can both return
+    and end the program: the shapes in which the per-activation loop cut and the call/return matching of a path search interact"""
+    for m, s in skeletons(3, 3):
+        if len(s) != 3 or not any(t == "callsub" for t, _ in m):
+            continue
+        if not any(t in ("b", "bz", "bnz") and tg and int(tg[1:]) <= i for i, (t, tg) in enumerate(m)):
+            continue
+        if not (any(t == "return" for t, _ in s) and any(t == "retsub" for t, _ in s)):
+            continue
+        name = "M[" + ",".join(t + (":" + tg if tg else "") for t, tg in m) + "] F[" + ",".join(t + (":" + tg if tg else "") for t, tg in s) + "]"
+        yield name, render(m, s)
